@@ -283,23 +283,92 @@ fn nontrivial(ops: &[String]) -> bool {
     false
 }
 
-fn rnd_result(r: &mut Rng, mt: &str, xkeys: &mut bool) -> String {
-    if r.chance(1, 9) { return "f".into(); }
-    let meta = if mt == "V" { format!("{}_~", r.below(50)) } else { match r.below(20) { 0 => { *xkeys = true; format!("{}_{}", r.below(50), r.below(50)) } 1..=5 => "~".into(), 6..=9 => format!("~_{}", r.below(50)), 10..=12 => "~_~".into(), _ => format!("{}_~", r.below(50)) } };
-    let env = if r.chance(1, 5) { "~".to_string() } else { let k = r.below(6); let e: Vec<String> = (0..k).map(|_| format!("{}/{}/{}/{}", r.pick(&["A", "B", "L", "P:776562", "P:776f726b6572"]), r.pick(&["a", "d", "m", "o", "p"]), hex(r.pick(&["P", "Q.x", "PATH"]).as_bytes()), hex(r.pick(&["", "v", "/x", ":"]).as_bytes()))).collect(); join(",", &e) };
-    let execd = match r.below(10) { 0 => format!("{}=~", hex(b"gone")), 1..=4 => "-".into(), _ => { let k = 1 + r.below(2); let ps: Vec<String> = (0..k).map(|j| format!("{}={}", hex(format!("p{j}").as_bytes()), hex(&[b'0' + r.below(9) as u8]))).collect(); ps.join("+") } };
-    let mut sb = vec![]; for i in 0..3 { if r.chance(1, 3) { sb.push(format!("{i}={}", hex(&[b'a' + r.below(20) as u8]))); } }
-    let k = r.below(3); let fs: Vec<String> = (0..k).map(|_| { let n = *r.pick(&["f1", "f2", "bin", "lib", "data"]); if (n == "bin" || n == "lib") && r.chance(3, 4) { format!("{}=*", hex(n.as_bytes())) } else { format!("{}={}", hex(n.as_bytes()), hex(&[b'A' + r.below(20) as u8])) } }).collect();
-    format!("{meta}!{env}!{execd}!{}!{}", join("+", &sb), join("+", &fs))
+const SCOPES: [&str; 5] = ["A", "B", "L", "P:776562", "P:776f726b6572"];
+
+/// the parts of a callback result that end up in the layer (metadata is drawn separately)
+#[derive(Clone, Default)]
+struct Parts { env: Option<Vec<String>>, execd: Vec<String>, sboms: Vec<String>, files: Vec<String> }
+
+fn render(meta: &str, p: &Parts) -> String {
+    format!("{meta}!{}!{}!{}!{}", p.env.as_ref().map_or("~".to_string(), |e| join(",", e)), join("+", &p.execd), join("+", &p.sboms), join("+", &p.files))
+}
+fn scope_of(e: &str) -> &str { e.split('/').next().unwrap() }
+fn rnd_entry(r: &mut Rng) -> String { format!("{}/{}/{}/{}", r.pick(&SCOPES), r.pick(&["a", "d", "m", "o", "p"]), hex(r.pick(&["P", "Q.x", "PATH"]).as_bytes()), hex(r.pick(&["", "v", "/x", ":"]).as_bytes())) }
+fn rnd_prog(r: &mut Rng) -> String { format!("{}={}", hex(format!("p{}", r.below(3)).as_bytes()), hex(&[b'0' + r.below(9) as u8])) }
+fn rnd_file(r: &mut Rng) -> String { let n = *r.pick(&["f1", "f2", "bin", "lib", "data"]); if (n == "bin" || n == "lib") && r.chance(3, 4) { format!("{}=*", hex(n.as_bytes())) } else { format!("{}={}", hex(n.as_bytes()), hex(&[b'A' + r.below(20) as u8])) } }
+fn key_of(x: &str) -> &str { x.split('=').next().unwrap() }
+/// keep at most one element per key (exec.d names and SBOM formats are map keys / one file each)
+fn uniq(v: Vec<String>) -> Vec<String> { let mut out: Vec<String> = vec![]; for x in v { if let Some(i) = out.iter().position(|y| key_of(y) == key_of(&x)) { out[i] = x; } else { out.push(x); } } out }
+
+fn fresh_parts(r: &mut Rng) -> Parts {
+    let env = match r.below(6) { 0 => None, 1 | 2 => Some(ENV_RICH.split(',').map(str::to_string).collect()), _ => { let k = r.below(7); Some((0..k).map(|_| rnd_entry(r)).collect()) } };
+    let execd = if r.chance(2, 5) { vec![] } else { let k = 1 + r.below(2); uniq((0..k).map(|_| rnd_prog(r)).collect()) };
+    let mut sboms = vec![]; for i in 0..3 { if r.chance(1, 3) { sboms.push(format!("{i}={}", hex(&[b'a' + r.below(20) as u8]))); } }
+    let k = r.below(3); let files = (0..k).map(|_| rnd_file(r)).collect();
+    Parts { env, execd, sboms, files }
+}
+
+/// one small edit of a set given as a list: identical / drop one / change one / add one
+fn edit_set(r: &mut Rng, v: &[String], mk: &mut dyn FnMut(&mut Rng) -> String, dedup: bool) -> Vec<String> {
+    let mut v = v.to_vec();
+    match r.below(6) {
+        0 | 1 | 2 => {}
+        3 => if !v.is_empty() { let i = r.below(v.len() as u64) as usize; v.remove(i); },
+        4 => if !v.is_empty() { let i = r.below(v.len() as u64) as usize; let k = key_of(&v[i]).to_string(); let n = mk(r); v[i] = format!("{k}={}", n.split_once('=').unwrap().1); },
+        _ => { let n = mk(r); v.push(n); }
+    }
+    if dedup { uniq(v) } else { v }
+}
+
+/// a result derived from the previous one of the same layer: some scopes / sets stay byte-identical, others shrink,
+/// vanish, change or grow
+fn derive(r: &mut Rng, p: &Parts) -> Parts {
+    let env = match &p.env {
+        None => if r.chance(1, 2) { None } else { fresh_parts(r).env },
+        Some(e) => {
+            let mut e = e.clone();
+            match r.below(10) {
+                0 | 1 => {}
+                2..=5 => { // drop a whole scope, a process scope twice as likely
+                    let mut present: Vec<&str> = vec![]; for sc in SCOPES { if e.iter().any(|x| scope_of(x) == sc) { present.push(sc); if sc.starts_with("P:") { present.push(sc); } } }
+                    if !present.is_empty() { let sc = r.pick(&present).to_string(); e.retain(|x| scope_of(x) != sc); }
+                }
+                6 => if !e.is_empty() { let i = r.below(e.len() as u64) as usize; e.remove(i); },
+                7 => if !e.is_empty() { let i = r.below(e.len() as u64) as usize; let q: Vec<&str> = e[i].split('/').collect(); e[i] = format!("{}/{}/{}/{}", q[0], q[1], q[2], hex(r.pick(&["", "w", "/y"]).as_bytes())); },
+                8 => { let n = rnd_entry(r); e.push(n); }
+                _ => return Parts { env: None, ..derive_sets(r, p) },
+            }
+            Some(e)
+        }
+    };
+    Parts { env, ..derive_sets(r, p) }
+}
+fn derive_sets(r: &mut Rng, p: &Parts) -> Parts {
+    Parts { env: None, execd: edit_set(r, &p.execd, &mut rnd_prog, true), sboms: edit_set(r, &p.sboms, &mut |r| format!("{}={}", r.below(3), hex(&[b'a' + r.below(20) as u8])), true), files: edit_set(r, &p.files, &mut rnd_file, false) }
+}
+
+fn rnd_meta(r: &mut Rng, mt: &str, xkeys: &mut bool) -> String {
+    if mt == "V" { format!("{}_~", r.below(50)) } else { match r.below(20) { 0 => { *xkeys = true; format!("{}_{}", r.below(50), r.below(50)) } 1..=5 => "~".into(), 6..=9 => format!("~_{}", r.below(50)), 10..=12 => "~_~".into(), _ => format!("{}_~", r.below(50)) } }
+}
+
+/// a callback answer: fails, or a result that is fresh (1/4) or derived from `base`; returns the parts when they are usable as a next base
+fn rnd_result(r: &mut Rng, mt: &str, xkeys: &mut bool, base: Option<&Parts>) -> (String, Option<Parts>) {
+    if r.chance(1, 9) { return ("f".into(), None); }
+    let meta = rnd_meta(r, mt, xkeys);
+    let parts = match base { Some(b) if !r.chance(1, 4) => derive(r, b), _ => fresh_parts(r) };
+    if r.chance(1, 12) { let gone = Parts { execd: vec![format!("{}=~", hex(b"gone"))], ..parts.clone() }; return (render(&meta, &gone), None); }
+    (render(&meta, &parts), Some(parts))
 }
 
 fn generate(tier: &str, seed: u64, emit: &mut dyn FnMut(Case)) {
     let mk = |names: &[&str], ops: Vec<String>, kind: &str, xkeys: bool| {
         let nt = nontrivial(&ops);
         let nh = ops.iter().filter(|o| o.starts_with('H')).count();
-        Case { fields: vec![names.join(","), join(";", &ops)], tags: vec![("kind".into(), kind.into()), ("len".into(), ops.len().min(10).to_string()), ("restores".into(), ops.iter().filter(|o| *o == "R").count().min(4).to_string()), ("handles".into(), nh.min(9).to_string()), ("procenv".into(), u8::from(has_process_env(&ops)).to_string()), ("xkeys".into(), u8::from(xkeys).to_string())], nontrivial: nt }
+        Case { fields: vec![names.join(","), join(";", &ops)], tags: vec![("kind".into(), kind.into()), ("len".into(), ops.len().min(10).to_string()), ("restores".into(), ops.iter().filter(|o| *o == "R").count().min(4).to_string()), ("handles".into(), nh.min(9).to_string()), ("procenv".into(), u8::from(has_process_env(&ops)).to_string()), ("xkeys".into(), u8::from(xkeys).to_string()), ("dotted".into(), u8::from(names.len() > 1 && names.iter().all(|n| n.starts_with(names[0]))).to_string())], nontrivial: nt }
     };
     let a = hex(b"a"); let b = hex(b"bee"); let c = hex(b"c-3");
+    // layer names sharing a dotted prefix: `<name>.toml` / `<name>.sbom.<fmt>.json` of one must not be taken for another's
+    let at = hex(b"a.tools"); let asb = hex(b"a.sbom");
     // 1. exhaustive: all histories of length <= 2 over one name and the reduced alphabet
     let alpha = alphabet(&a);
     for x in &alpha { emit(mk(&[&a], vec![x.clone()], "exh1", false)); }
@@ -309,22 +378,54 @@ fn generate(tier: &str, seed: u64, emit: &mut dyn FnMut(Case)) {
         let ops = vec![h(&a, ty, "G", "k", "r", &rich("4_~"), &small("~")), "R".into(), second.clone(), "R".into(), h(&a, "111", "G", "k", "r", &small("~"), &small("~"))];
         emit(mk(&[&a], ops, "directed", false));
     } }
-    // 3. sampled histories over two or three names
+    // 3. exhaustive family "scopes": an env populating all five scope directories, then update (and create-after-recreate)
+    //    returning exactly the entries of every subset of the scopes (identical entries), everything else identical
+    let full = Parts { env: Some(ENV_RICH.split(',').map(str::to_string).collect()), execd: vec![format!("{}=2321", hex(b"prog")), format!("{}=30", hex(b"p2"))], sboms: vec!["0=63".into(), "2=73".into()], files: vec![format!("{}=64", hex(b"f1")), format!("{}=*", hex(b"bin"))] };
+    let first = h(&a, "111", "G", "u", "r", &render("~_9", &full), &small("~"));
+    for mask in 0..32u32 {
+        let kept: Vec<String> = full.env.as_ref().unwrap().iter().filter(|e| { let i = SCOPES.iter().position(|s| *s == scope_of(e)).unwrap(); mask >> i & 1 == 1 }).cloned().collect();
+        let res = render("~_9", &Parts { env: Some(kept), ..full.clone() });
+        for st in ["u", "r"] { for with_restore in [false, true] {
+            let mut ops = vec![first.clone()]; if with_restore { ops.push("R".into()); }
+            ops.push(h(&a, "111", "G", st, "r", &res, &res));
+            emit(mk(&[&a, &at], ops, "scopes", false));
+        } }
+    }
+    // 4. exhaustive family "sets": identical env, every subset of the exec.d programs x SBOMs, with/without the files
+    for xm in 0..4u32 { for sm in 0..4u32 { for keep_files in [true, false] {
+        let sub = |v: &Vec<String>, m: u32| -> Vec<String> { v.iter().enumerate().filter(|(i, _)| m >> i & 1 == 1).map(|(_, x)| x.clone()).collect() };
+        let res = render("~_9", &Parts { env: full.env.clone(), execd: sub(&full.execd, xm), sboms: sub(&full.sboms, sm), files: if keep_files { full.files.clone() } else { vec![] } });
+        emit(mk(&[&a, &at], vec![first.clone(), h(&a, "111", "G", "u", "r", &res, &res)], "sets", false));
+    } } }
+    // 5. directed family "dotted": three layers whose names share a dotted prefix, each populated, restored, then kept /
+    //    updated / recreated one at a time in every order of the three strategies
+    for (s1, s2, s3) in [("k", "u", "r"), ("k", "r", "u"), ("u", "k", "r"), ("u", "r", "k"), ("r", "k", "u"), ("r", "u", "k")] { for ty in ["111", "101"] {
+        let ops = vec![h(&a, ty, "G", "k", "r", &rich("1_~"), &upd("2_~")), h(&at, ty, "V", "k", "r", &rich("3_~"), &upd("4_~")), h(&asb, ty, "G", "k", "r", &rich("~_5"), &upd("~_6")), "R".into(),
+            h(&at, ty, "V", s1, "r", &upd("7_~"), &upd("8_~")), h(&asb, ty, "G", s2, "r", &small("~"), &upd("~_9")), h(&a, ty, "G", s3, "r", &small("1_~"), &small("~")), "R".into(),
+            h(&asb, "111", "G", "k", "r", &small("~"), &small("~"))];
+        emit(mk(&[&a, &at, &asb], ops, "dotted", false));
+    } }
+    // 6. sampled histories over two or three names; the results of successive calls on a layer are correlated
     let samples = if tier == "thorough" { 30_000 } else { 2_000 };
     for idx in 0..samples {
         let mut r = Rng::for_case(seed, idx);
-        let names: Vec<&str> = if r.chance(1, 2) { vec![a.as_str(), b.as_str()] } else { vec![a.as_str(), b.as_str(), c.as_str()] };
+        let names: Vec<&str> = match r.below(4) { 0 | 1 => vec![a.as_str(), at.as_str(), asb.as_str()], 2 => vec![a.as_str(), b.as_str()], _ => vec![a.as_str(), b.as_str(), c.as_str()] };
         let len = 1 + r.below(10);
         let mut ops: Vec<String> = vec![]; let mut xkeys = false;
+        let mut base: std::collections::HashMap<&str, Parts> = std::collections::HashMap::new();
         for _ in 0..len {
             if r.chance(1, 5) { ops.push("R".into()); continue; }
             let n = if r.chance(2, 3) { names[0] } else { *r.pick(&names) };
             if r.chance(1, 40) { ops.push(format!("B.{n}")); continue; }
             let mt = if r.chance(1, 2) { "G" } else { "V" };
             let ty = format!("{}{}{}", r.below(2), r.below(2), if r.chance(3, 4) { 1 } else { 0 });
-            let st = *r.pick(&["k", "k", "k", "u", "u", "r", "r", "f"]);
+            let st = *r.pick(&["k", "k", "u", "u", "u", "r", "r", "f"]);
             let mg = match r.below(7) { 0 | 1 => "r".to_string(), 2..=5 => format!("p{}_~", r.below(50)), _ => "f".into() };
-            let cr = rnd_result(&mut r, mt, &mut xkeys); let up = rnd_result(&mut r, mt, &mut xkeys);
+            let (cr, crp) = rnd_result(&mut r, mt, &mut xkeys, base.get(n));
+            let (up, upp) = rnd_result(&mut r, mt, &mut xkeys, base.get(n));
+            // what is most likely on disk afterwards: the create result for a new or recreated layer, the update result on update
+            let next = if !base.contains_key(n) || st == "r" { crp } else if st == "u" { upp } else { None };
+            if let Some(p) = next { base.insert(n, p); }
             ops.push(h(n, &ty, mt, st, &mg, &cr, &up));
         }
         emit(mk(&names, ops, "rnd", xkeys));
